@@ -40,13 +40,41 @@ func viewTypes() []*dg.UserType {
 	return []*dg.UserType{inner, outer}
 }
 
+// repaired lists the signatures of findings that goa has since repaired (fix: commits
+// of the C12 round). Their witnesses stay in every run as an ordinary regression corpus
+// (stream "corpus"): they must now end in an accepted design or reported errors, and a
+// crash / an accepted dangling reference is a fresh VIOLATION with this replay.
+var repaired = map[string]bool{
+	"dangling-tag-accepted":                                   true,
+	"dangling-required-under-map-accepted":                    true,
+	"panic:expr.(*HTTPResponseExpr).Validate.func1:nil-deref": true,
+	"panic:expr.(*HTTPErrorExpr).Validate:nil-deref":          true,
+	"fatal:stack-overflow:expr.(*AttributeExpr).Find":         true,
+	"panic:dsl.Server:nil-deref":                              true,
+	"panic:dsl.Security:index":                                true,
+	"panic:dsl.cookieAttribute:nil-deref":                     true,
+	"panic:dsl.Reference:nil-deref":                           true,
+	"panic:dsl.Extend:nil-deref":                              true,
+	"panic:dsl.useDSL.func2:nil-deref":                        true,
+	"panic:dsl.Field.func2:nil-deref":                         true,
+}
+
+func streamOf(sig string) (string, string) {
+	if repaired[sig] {
+		return "corpus", ""
+	}
+	return "witness", sig
+}
+
 func witnessItems() []*Item {
 	var items []*Item
 	addD := func(sig string, d *dg.Design, m *Mutation, gen bool) {
-		items = append(items, &Item{Stream: "witness", Design: d, Mut: m, Gen: gen, Witness: sig})
+		st, w := streamOf(sig)
+		items = append(items, &Item{Stream: st, Design: d, Mut: m, Gen: gen, Witness: w})
 	}
 	addP := func(sig string, top ...*Call) {
-		items = append(items, &Item{Stream: "witness", Prog: &Program{Top: top}, Witness: sig})
+		st, w := streamOf(sig)
+		items = append(items, &Item{Stream: st, Prog: &Program{Top: top}, Witness: w})
 	}
 	str := dg.A(dg.Prim("String"))
 	objA := dg.A(dg.Obj(dg.F("a", dg.Prim("String"))))
@@ -73,7 +101,7 @@ func witnessItems() []*Item {
 		res := dg.A(dg.Ref("Outer"))
 		addD("panic:expr.(*HTTPResponseExpr).Validate.func1:nil-deref", &dg.Design{Name: "wview", Types: viewTypes(),
 			Services: svc1(&dg.Method{Name: "m", Result: &res, ResultView: "tiny", HTTP: h})},
-			&Mutation{Kind: "dangling_resp_header_fixed_view", Where: "ws.m", Name: "b", Expect: "any"}, false)
+			&Mutation{Kind: "dangling_resp_header_fixed_view", Where: "ws.m", Name: "b", Expect: "reject"}, false)
 	}
 	// error response for an undeclared error, with a header
 	{
@@ -81,18 +109,18 @@ func witnessItems() []*Item {
 		h.Errors = []dg.ErrResponse{{Name: "nope", R: dg.Response{Status: 418, Headers: []dg.MapEntry{{Attr: "x", Wire: "X-X"}}}}}
 		res := objA
 		addD("panic:expr.(*HTTPErrorExpr).Validate:nil-deref", &dg.Design{Name: "werr", Services: svc1(&dg.Method{Name: "m", Result: &res, HTTP: h})},
-			&Mutation{Kind: "undeclared_error_with_header", Where: "ws.m", Name: "nope", Expect: "any"}, false)
+			&Mutation{Kind: "undeclared_error_with_header", Where: "ws.m", Name: "nope", Expect: "reject"}, false)
 	}
 	// a type that extends itself, two types that extend each other
 	{
 		a := &dg.UserType{Name: "A", Base: dg.Obj(dg.F("a", dg.Prim("String"))), Extend: "A"}
 		pl := dg.A(dg.Ref("A"))
-		addD("fatal:stack-overflow:expr.(*AttributeExpr).Find", &dg.Design{Name: "wselfext", Types: []*dg.UserType{a}, Services: svc1(&dg.Method{Name: "m", Payload: &pl, HTTP: post("/x")})},
+		addD("fatal:stack-overflow:expr.hasTag", &dg.Design{Name: "wselfext", Types: []*dg.UserType{a}, Services: svc1(&dg.Method{Name: "m", Payload: &pl, HTTP: post("/x")})},
 			&Mutation{Kind: "self_extend", Where: "A", Expect: "any"}, false)
 		a2 := &dg.UserType{Name: "A", Base: dg.Obj(dg.F("a", dg.Prim("String"))), Extend: "B"}
 		b2 := &dg.UserType{Name: "B", Base: dg.Obj(dg.F("b", dg.Prim("String"))), Extend: "A"}
 		pl2 := dg.A(dg.Ref("A"))
-		addD("fatal:stack-overflow:expr.(*AttributeExpr).Find", &dg.Design{Name: "wmutext", Types: []*dg.UserType{a2, b2}, Services: svc1(&dg.Method{Name: "m", Payload: &pl2, HTTP: post("/x")})},
+		addD("fatal:stack-overflow:expr.hasTag", &dg.Design{Name: "wmutext", Types: []*dg.UserType{a2, b2}, Services: svc1(&dg.Method{Name: "m", Payload: &pl2, HTTP: post("/x")})},
 			&Mutation{Kind: "mutual_extend", Where: "A,B", Expect: "any"}, false)
 	}
 	// accepted, then the generators panic
@@ -120,8 +148,15 @@ func witnessItems() []*Item {
 		f := dg.F("s", dg.Prim("String")).With(dg.Validation{MinLen: dg.Ip(9), MaxLen: dg.Ip(2)})
 		om := &dg.UserType{Name: "OM", Base: dg.Obj(f)}
 		pl2 := dg.A(dg.Obj(dg.F("mm", dg.MapOf(str, dg.A(dg.Ref("OM"))))))
-		addD("generate-panic:expr.NewLength:explicit", &dg.Design{Name: "wminmax", Types: []*dg.UserType{om}, Services: svc1(&dg.Method{Name: "m", Payload: &pl2, HTTP: post("/mm")})},
-			&Mutation{Kind: "contradictory_validation", Where: "OM.s (only reached through a map: not validated)", Expect: "any"}, true)
+		// below a map: rejected since Validate descends into maps (regression corpus)
+		addD("dangling-required-under-map-accepted", &dg.Design{Name: "wminmaxmap", Types: []*dg.UserType{om}, Services: svc1(&dg.Method{Name: "m", Payload: &pl2, HTTP: post("/mmm")})},
+			&Mutation{Kind: "contradictory_validation", Where: "OM.s below a map", Expect: "any"}, true)
+		// in a base type only reached through Extend: the bases are merged by Finalize, after validation
+		ob := &dg.UserType{Name: "OBase", Base: dg.Obj(dg.F("s", dg.Prim("String")).With(dg.Validation{MinLen: dg.Ip(9), MaxLen: dg.Ip(2)}))}
+		oc := &dg.UserType{Name: "OChild", Base: dg.Obj(dg.F("x", dg.Prim("Int"))), Extend: "OBase"}
+		pl2 = dg.A(dg.Ref("OChild"))
+		addD("generate-panic:expr.NewLength:explicit", &dg.Design{Name: "wminmax", Types: []*dg.UserType{ob, oc}, Services: svc1(&dg.Method{Name: "m", Payload: &pl2, HTTP: post("/mm")})},
+			&Mutation{Kind: "contradictory_validation", Where: "OBase.s (only reached through Extend: not validated)", Expect: "any"}, true)
 		f1 := dg.F("x", dg.Prim("String")).With(dg.Validation{MinLen: dg.Ip(1)})
 		o2 := &dg.UserType{Name: "O", Base: dg.Obj(f1, dg.F("x", dg.Prim("Int")))}
 		pl3 := dg.A(dg.Ref("O"))
@@ -144,8 +179,22 @@ func witnessItems() []*Item {
 	for _, w := range stored {
 		it := w.Item
 		fixJSON(it.Design)
-		it.Stream, it.Witness = "witness", w.Signature
+		it.Stream, it.Witness = streamOf(w.Signature)
 		items = append(items, it)
+	}
+	// Reference cycles (self and mutual) used to overflow the stack in Find: now ordinary designs
+	{
+		a := &dg.UserType{Name: "A", Base: dg.Obj(dg.F("a", dg.Prim("String"))), Reference: "A"}
+		pl := dg.A(dg.Ref("A"))
+		addD("fatal:stack-overflow:expr.(*AttributeExpr).Find", &dg.Design{Name: "wselfref", Types: []*dg.UserType{a}, Services: svc1(&dg.Method{Name: "m", Payload: &pl, HTTP: post("/x")})},
+			&Mutation{Kind: "self_reference", Where: "A", Expect: "any"}, false)
+		a2 := &dg.UserType{Name: "A", Base: dg.Obj(dg.F("a", dg.Prim("String"))), Reference: "B"}
+		b2 := &dg.UserType{Name: "B", Base: dg.Obj(dg.F("b", dg.Prim("String"))), Reference: "A"}
+		pl2 := dg.A(dg.Ref("A"))
+		h := post("/x")
+		h.Headers = []dg.MapEntry{{Attr: "nope", Wire: "X-Nope"}}
+		addD("fatal:stack-overflow:expr.(*AttributeExpr).Find", &dg.Design{Name: "wmutref", Types: []*dg.UserType{a2, b2}, Services: svc1(&dg.Method{Name: "m", Payload: &pl2, HTTP: h})},
+			&Mutation{Kind: "dangling_header", Where: "ws.m (payload type in a Reference cycle)", Name: "nope", Expect: "reject"}, false)
 	}
 	return items
 }
